@@ -18,11 +18,11 @@ import vlib
 
 PID = "C10"
 RULES = ["C10.Lattice", "C10.Signaling", "C10.Roles", "C10.Keys", "C10.Connected", "C10.DcDelivery",
-         "C10.RtpDelivery", "C10.RtpIntact"]
-LIVENESS_RULES = {"C10.Signaling", "C10.Connected", "C10.DcDelivery", "C10.RtpDelivery"}
+         "C10.RtpDelivery", "C10.RtpIntact", "C10.Reneg"]
+LIVENESS_RULES = {"C10.Signaling", "C10.Connected", "C10.DcDelivery", "C10.RtpDelivery", "C10.Reneg"}
 DEFAULT = {"mode": "WebRtc", "media": ["dc"], "bundle": "balanced", "mux": "require", "ice": "full",
-           "latching": False, "compat": "Standard", "offerer": "A", "sched": "plain"}
-FACTORS = ["mode", "media", "bundle", "mux", "ice", "latching", "compat", "offerer", "sched"]
+           "latching": False, "compat": "Standard", "offerer": "A", "sched": "plain", "reneg": "none"}
+FACTORS = ["mode", "media", "bundle", "mux", "ice", "latching", "compat", "offerer", "sched", "reneg"]
 CHUNK = 40
 
 LATTICE_CONSTS = """  Modes = {"WebRtc", "Srtp", "Rtp"}
@@ -34,6 +34,7 @@ LATTICE_CONSTS = """  Modes = {"WebRtc", "Srtp", "Rtp"}
   Compats = {"Standard", "LegacySip"}
   Offerers = {"A", "B"}
   Scheds = {"plain", "slowSetRemote"}
+  Renegs = {"none", "offerer", "answerer"}
 """
 
 
@@ -44,7 +45,7 @@ def tla_set(xs):
 def mc_cfg(path, devs=(), emit=False, liveness=True):
     with open(path, "w") as f:
         f.write("SPECIFICATION Spec\nCONSTANTS\n" + LATTICE_CONSTS + f"  Deviations = {tla_set(devs)}\n"
-                "INVARIANTS TypeOK RolesComplementary SameSrtpKeys NeverFailed\n"
+                "INVARIANTS TypeOK RolesComplementary SameSrtpKeys NeverFailed StaysConnected\n"
                 + ("PROPERTIES ConnectsAndDelivers\n" if liveness else "")
                 + f"ACTION_CONSTRAINT {'EmitCfg' if emit else 'NoEmit'}\nCHECK_DEADLOCK FALSE\n")
 
@@ -165,7 +166,7 @@ def signature(c, v):
         side = "offerer" if inst == c["offerer"] else "answerer"
     return {"sub": "lifecycle-pair", "rule": rule, "mode": c["mode"], "compat": c["compat"], "ice": c["ice"],
             "mux": c["mux"], "nmedia": len([m for m in c["media"] if m != "dc"]), "dc": "dc" in c["media"],
-            "sched": c.get("sched", "plain"), "t": t, "side": side}
+            "sched": c.get("sched", "plain"), "reneg": c.get("reneg", "none"), "t": t, "side": side}
 
 
 def validate_runs(ck, runs, tag):
@@ -311,7 +312,8 @@ def selftest():
     vlib.OUT = ck.dir
     ok = True
     for dev, inv in {"SdesBeforeLocalAnswer": "NeverFailed", "EqualRoles": "RolesComplementary",
-                     "SctpNeedsStoredRemote": "ConnectsAndDelivers"}.items():
+                     "SctpNeedsStoredRemote": "ConnectsAndDelivers",
+                     "RenegRestartsTransport": "StaysConnected"}.items():
         cfg = os.path.join(vlib.SPEC, f"MC_LifecyclePair_self_{dev}.gen.cfg")
         mc_cfg(cfg, devs=[dev], liveness=(inv == "ConnectsAndDelivers"))
         res = vlib.tlc("MC_LifecyclePair", os.path.basename(cfg), workers=4, timeout=600, tag=f"selfpair_{dev}")
